@@ -166,19 +166,29 @@ func runVF11(p *Prog, r *RuleRun) {
 			return n == "crc32.Checksum" || n == "crc32.Update"
 		}, 0)
 	}
-	// FC: the variable holding the commit record whose stored CRC is compared (found from the comparison itself)
-	cellOf := func(v ssa.Value) *ssa.Alloc {
+	// FC: the commit record whose stored CRC is compared, found from the comparison itself: a pointer to a record
+	// (loaded from a local variable shared with the scan callback, or a plain value taken from the scan's result)
+	recordOf := func(v ssa.Value) ssa.Value {
+		// walk from `rec.fh.crc` (loads of field addresses, field extractions) down to the record pointer
 		for i := 0; i < 6; i++ {
 			switch x := v.(type) {
 			case *ssa.UnOp:
 				if x.Op != token.MUL {
 					return nil
 				}
-				if al, ok := x.X.(*ssa.Alloc); ok {
-					return al
+				if _, ok := x.X.(*ssa.FieldAddr); ok {
+					v = x.X
+					continue
 				}
-				v = x.X
+				return x // a load of a variable holding the pointer
 			case *ssa.FieldAddr:
+				if pt, ok := x.X.Type().Underlying().(*types.Pointer); ok {
+					if _, isStruct := pt.Elem().Underlying().(*types.Struct); isStruct {
+						if _, inner := x.X.(*ssa.FieldAddr); !inner {
+							return x.X // the pointer the outermost field address is taken from
+						}
+					}
+				}
 				v = x.X
 			case *ssa.Field:
 				v = x.X
@@ -188,7 +198,26 @@ func runVF11(p *Prog, r *RuleRun) {
 		}
 		return nil
 	}
-	var fcCell *ssa.Alloc
+	sameRec := func(a, b ssa.Value) bool {
+		if a == nil || b == nil {
+			return false
+		}
+		if a == b {
+			return true
+		}
+		ua, ok1 := a.(*ssa.UnOp)
+		ub, ok2 := b.(*ssa.UnOp)
+		if ok1 && ok2 && ua.Op == token.MUL && ub.Op == token.MUL {
+			if ua.X == ub.X {
+				return true
+			}
+			fa, ok3 := ua.X.(*ssa.FieldAddr)
+			fb, ok4 := ub.X.(*ssa.FieldAddr)
+			return ok3 && ok4 && fa.Field == fb.Field && (fa.X == fb.X || sameLoad(fa.X, fb.X))
+		}
+		return false
+	}
+	var fcRec ssa.Value
 	for fn := range p.reachableFuncs(root) {
 		for _, b := range fn.Blocks {
 			for _, ins := range b.Instrs {
@@ -198,9 +227,11 @@ func runVF11(p *Prog, r *RuleRun) {
 				}
 				for _, pair := range [][2]ssa.Value{{bo.X, bo.Y}, {bo.Y, bo.X}} {
 					if isCRC(pair[0]) && !isCRC(pair[1]) {
-						if c := cellOf(pair[1]); c != nil {
-							if _, isPtr := c.Type().(*types.Pointer).Elem().Underlying().(*types.Pointer); isPtr {
-								fcCell = c
+						if rec := recordOf(pair[1]); rec != nil {
+							if pt, ok := rec.Type().Underlying().(*types.Pointer); ok {
+								if _, isStruct := pt.Elem().Underlying().(*types.Struct); isStruct {
+									fcRec = rec
+								}
 							}
 						}
 					}
@@ -209,16 +240,12 @@ func runVF11(p *Prog, r *RuleRun) {
 		}
 	}
 	isEntryList := func(v ssa.Value) bool {
-		// len(<slice variable of file offsets>)
+		// len(<slice of file offsets>)
 		c, ok := v.(*ssa.Call)
 		if !ok || !isBuiltinCall(c, "len") {
 			return false
 		}
-		al := cellOf(c.Call.Args[0])
-		if al == nil {
-			return false
-		}
-		sl, ok := al.Type().(*types.Pointer).Elem().Underlying().(*types.Slice)
+		sl, ok := c.Call.Args[0].Type().Underlying().(*types.Slice)
 		if !ok {
 			return false
 		}
@@ -238,10 +265,10 @@ func runVF11(p *Prog, r *RuleRun) {
 			if !ok {
 				return
 			}
-			if fcCell != nil {
+			if fcRec != nil {
 				// "no commit frame at all": the commit record is nil
 				if c, isC := bo.Y.(*ssa.Const); isC && c.IsNil() && (bo.Op == token.EQL || bo.Op == token.NEQ) {
-					if u, ok := bo.X.(*ssa.UnOp); ok && u.Op == token.MUL && u.X == ssa.Value(fcCell) && (bo.Op == token.EQL) == truth {
+					if sameRec(bo.X, fcRec) && (bo.Op == token.EQL) == truth {
 						f.TS["fc"] = "nil"
 					}
 				}
@@ -251,7 +278,7 @@ func runVF11(p *Prog, r *RuleRun) {
 					x, y = y, x
 					op = map[token.Token]token.Token{token.LSS: token.GTR, token.GTR: token.LSS, token.LEQ: token.GEQ, token.GEQ: token.LEQ, token.EQL: token.EQL, token.NEQ: token.NEQ}[op]
 				}
-				if isEntryList(y) && cellOf(x) == fcCell && fieldLoadName(x) != "" {
+				if isEntryList(y) && fieldLoadName(x) != "" && sameRec(recordOf(x), fcRec) {
 					var less bool
 					known := true
 					switch op {
@@ -328,7 +355,7 @@ func runVF11(p *Prog, r *RuleRun) {
 	eng := newOrdEngine(p, spec)
 	eng.RunRoot(root, nil)
 	finishEngine(r, eng)
-	if fcCell == nil {
+	if fcRec == nil {
 		r.Unknown(funcDisplay(root)+":commit-record", p.Position(root.Pos()), "cannot identify the variable holding the final commit record from the CRC comparison")
 	}
 	if nCmp == 0 {
